@@ -74,8 +74,6 @@ func copyTree(src, dst string) {
 	}
 }
 
-const SigCleanupUninit = "C09-cleanup-on-never-initialised-metadata"
-
 func run(c *Case) []snapx.Problem {
 	var problems []snapx.Problem
 	problem := func(sig, format string, a ...any) {
@@ -237,10 +235,9 @@ func run(c *Case) []snapx.Problem {
 				if po.V.Temps != 0 || len(po.V.Dirs) > len(po.V.Walk) || (!c.NR && len(po.V.Dirs) != len(po.V.Walk)) {
 					problem("", "after restart + Cleanup: %d directories + %d temp for %d snapshots", len(po.V.Dirs), po.V.Temps, len(po.V.Walk))
 				}
-			case po.R.Class == "notfound" && len(before.Walk) == 0 && (len(before.Dirs) > 0 || before.Temps > 0):
-				problem(SigCleanupUninit, "Cleanup on a root whose metadata never committed a snapshot returns NotFound and leaves %d directories + %d temp behind", len(before.Dirs), before.Temps)
-			case po.R.Class != "notfound":
-				problem("", "Cleanup after restart failed: %s", po.R.Class)
+			default:
+				// (before fix C09-fix-1 a never-initialised metadata.db made this NotFound: finding F61)
+				problem("", "Cleanup after restart failed (%s), %d directories + %d temp left for %d snapshots", po.R.Class, len(before.Dirs), before.Temps, len(before.Walk))
 			}
 			m2.Relaxed = po.R.Class != "ok"
 		}
@@ -391,7 +388,7 @@ func main() {
 			Allow: k%2 == 0, NR: k == 5, MBad: []int{[]int{9, 1, 2, 9, 1, 9, 9}[k]},
 			Ops: []snapx.Op{cleanup, {Op: "prepare", Key: 6, Parent: 2, L: N, MOK: true}, {Op: "remove", Key: 3, Parent: -1, L: N}}})
 	}
-	// crash inside the very first createSnapshot: Cleanup cannot reclaim (known finding)
+	// crash inside the very first createSnapshot: Cleanup must reclaim the temp / orphan directory (fixed finding F61)
 	for k := 0; k < 3; k++ {
 		corpus = append(corpus, Case{Crash: snapx.Op{Op: "prepare", Key: 0, Parent: -1, L: N, MOK: true}, KSeed: k,
 			Ops: []snapx.Op{cleanup, {Op: "prepare", Key: 0, Parent: -1, L: N, MOK: true}, cleanup}})
